@@ -962,7 +962,140 @@ func (x *Exec) loopClauses(st *State, fr *Frame, ld *loopDesc) (invs, decs []Cla
 }
 
 // havocLoop forgets heap regions and worlds that the loop body may modify.
+// loopCallees: names of the callees a loop body can reach -- its own call sites and, transitively
+// (bounded depth), those of static callees and closures with a body, since they may be inlined.
+func (x *Exec) loopCallees(fr *Frame, ld *loopDesc) map[string]bool {
+	out := map[string]bool{}
+	seen := map[*ssa.Function]bool{}
+	var visitFn func(fn *ssa.Function, depth int)
+	visitInstr := func(in ssa.Instruction, depth int) {
+		var cc *ssa.CallCommon
+		switch c := in.(type) {
+		case *ssa.Call:
+			cc = c.Common()
+		case *ssa.Defer:
+			cc = c.Common()
+		case *ssa.Go:
+			cc = c.Common()
+		case *ssa.MakeClosure:
+			if f, ok := c.Fn.(*ssa.Function); ok {
+				out[CanonName(f)] = true
+				visitFn(f, depth+1)
+			}
+			return
+		}
+		if cc == nil {
+			return
+		}
+		name := staticCalleeName(cc)
+		if name == "" {
+			name = "<dynamic>"
+		}
+		out[name] = true
+		if cc.IsInvoke() {
+			// a statically known dynamic type turns the invoke into a concrete method: same method name
+			out["*."+cc.Method.Name()] = true
+		}
+		if f := cc.StaticCallee(); f != nil {
+			// only a callee that can be inlined contributes its own calls: a pure callee is a
+			// function symbol, a callee under contract is applied by its contract
+			if _, pure := x.purePattern(name); pure {
+				return
+			}
+			if c, ok := x.contractOf(name); ok {
+				if _, inl := c.Flags["inline"]; !inl {
+					return
+				}
+			}
+			visitFn(f, depth+1)
+		}
+	}
+	visitFn = func(fn *ssa.Function, depth int) {
+		if fn == nil || seen[fn] || depth > 4 || fn.Blocks == nil {
+			return
+		}
+		seen[fn] = true
+		for _, b := range fn.Blocks {
+			for _, in := range b.Instrs {
+				visitInstr(in, depth)
+			}
+		}
+	}
+	for bi := range ld.body {
+		for _, in := range fr.fn.Blocks[bi].Instrs {
+			visitInstr(in, 0)
+		}
+	}
+	if out["<dynamic>"] {
+		// a call through a function value may be one of the function's own closures
+		for _, an := range fr.fn.AnonFuncs {
+			out[CanonName(an)] = true
+			visitFn(an, 1)
+		}
+		out["<commit>"] = true
+	}
+	return out
+}
+
+// forgetLoopCalls: what the path knows about calls to callees the loop body can reach -- how many
+// there were, what the last one was handed and returned -- is not true any more once iterations of
+// the loop are cut away: the count becomes a symbol (at least what it was), the records are dropped.
+func (x *Exec) forgetLoopCalls(st *State, fr *Frame, ld *loopDesc) {
+	names := x.loopCallees(fr, ld)
+	if len(names) == 0 {
+		return
+	}
+	match := func(callee string) bool {
+		if names[callee] {
+			return true
+		}
+		if i := strings.LastIndex(callee, ")."); i >= 0 && names["*."+callee[i+2:]] {
+			return true
+		}
+		return false
+	}
+	if st.callSyms == nil {
+		st.callSyms = map[string]Term{}
+	}
+	touchedNames := map[string]bool{}
+	for n := range names {
+		if !strings.HasPrefix(n, "*.") {
+			touchedNames[n] = true
+		}
+	}
+	for k := range st.callCounts {
+		if strings.HasPrefix(k, "n:") && match(k[2:]) {
+			touchedNames[k[2:]] = true
+		}
+	}
+	for _, n := range sortedKeys(touchedNames) {
+		prev := IntLit(int64(st.callCounts["n:"+n]))
+		if old, ok := st.callSyms[n]; ok {
+			prev = App(SInt, "+", prev, old)
+		}
+		sym := x.D.Fresh("ncalls", SInt)
+		st.assume(App(SBool, ">=", sym, prev))
+		st.callSyms[n] = sym
+		delete(st.callCounts, "n:"+n)
+	}
+	for k := range st.meta {
+		for _, pre := range []string{"ret:", "args:"} {
+			if strings.HasPrefix(k, pre) && match(k[len(pre):]) {
+				delete(st.meta, k)
+			}
+		}
+	}
+	for k := range st.retHeaps {
+		if match(k) {
+			delete(st.retHeaps, k)
+		}
+	}
+}
+
 func (x *Exec) havocLoop(st *State, fr *Frame, ld *loopDesc) {
+	if os.Getenv("GVC_KEEP_LOOP_CALLS") == "" {
+		x.forgetLoopCalls(st, fr, ld)
+	}
 	writes := map[string]bool{}
 	callsUnknown := false
 	worldCalls := false
